@@ -153,11 +153,11 @@ CLAIMED = {
     technique='Coq proof (invariants over prefixes of atomic-operation lists and over histories; sorting lemmas) + per-run crash-injection correspondence by vm_compute',
     ref='DESIGN.md section 5, C11'),
   'C12': dict(
-    text='PARTIAL. A Gallina model of Dense, 1-D Conv (padding canonicalisation, CIRCULAR / REFLECT / CAUSAL pre-padding with jnp.pad, then a VALID convolution; stride, kernel dilation, groups), '
+    text='PARTIAL. A Gallina model of Dense, 1-D and 2-D Conv (padding canonicalisation, CIRCULAR / REFLECT / CAUSAL pre-padding with jnp.pad, then a VALID convolution; stride, kernel dilation, groups), '
          '1-D ConvTranspose (input dilated by the stride, jax\'s transpose padding rule for SAME / VALID, stride-1 convolution with kernel dilation, and the layer\'s own CIRCULAR post-processing: '
          'pad the VALID result to whole periods, reshape and sum, with the alignment depending on transpose_kernel), '
          'Embed, 1-D avg / max / min pooling and the statistics of the normalisation layers (masked mean / variance, BatchNorm running averages). Proved for all inputs and hyper-parameters: '
-         'pre-pad + VALID convolution equals the documented direct sum over the extended signal; CAUSAL outputs do not depend on later inputs; SAME yields ceil(n/stride) positions; the transposed '
+         'pre-pad + VALID convolution equals the documented direct sum over the extended signal, in one and in two spatial dimensions; CAUSAL outputs do not depend on later inputs; SAME yields ceil(n/stride) positions; the transposed '
          'convolution is the direct sum over the input rows x[(o + t*d - pa) / s] its taps meet, SAME gives n*s and VALID n*s + max(k_eff - s, 0) positions, and the CIRCULAR wrap adds up exactly '
          'the entries congruent to each position of the period; max pooling '
          'returns a bounding element of the window; Embed is a lookup; masked positions cannot influence normalisation statistics, deviations from the mean sum to zero, running averages at momentum '
@@ -165,7 +165,7 @@ CLAIMED = {
          'InstanceNorm / BatchNorm, Dropout) in Linen and NNX with explicit integer parameters is compared with an independent numpy direct-sum reference and Linen with NNX; the modelled '
          'layers are also compared with the model in Coq.',
     note='Trusted: Coq kernel, vm_compute, harness (numpy reference c12_ref.py), jaxcompat, float64 arithmetic of XLA on small integers. NOT proved / not modelled: DenseGeneral and Einsum axis '
-         'arithmetic, 2-D convolutions and 2-D ConvTranspose, ConvLocal, normalised outputs (square roots), Group / Instance / RMS norms, Dropout: oracle-only. Outputs at masked positions and windows '
+         'arithmetic, 2-D ConvTranspose, 3-D convolutions, ConvLocal, normalised outputs (square roots), Group / Instance / RMS norms, Dropout: oracle-only. Outputs at masked positions and windows '
          'entirely in the padding (0/0) are unspecified and compared as the code gives them. dtype promotion, precision, axis_name not covered. No axioms.',
     technique='Coq proof (index arithmetic of padding / strides, non-interference, rational statistics) + per-run correspondence by vm_compute + independent direct-sum reference on the real code',
     ref='DESIGN.md section 5, C12'),
